@@ -19,7 +19,7 @@ for _r in (3, 2, 1):
 U = 1.0 / 64.0
 
 
-def _state_lines(sd):
+def _state_lines(sd, tag=""):
     out = []
     args = []
     if sd["timed"]:
@@ -36,7 +36,7 @@ def _state_lines(sd):
     argd = ", ".join(f"{p!r}: {p}" for p in sd["sig"])
     out.append("    " + deco)
     out.append(f"    def {sd['n']}({params}):")
-    out.append(f"        self._hit({sd['n']!r}, {{{argd}}})")
+    out.append(f"        self._hit({tag + sd['n']!r}, {{{argd}}})")
     return out
 
 
@@ -53,6 +53,14 @@ def class_source(case):
         if ov:
             out.extend(_state_lines(ov))  # the base class has its own version of a state that Mode redefines
         parent = "ModeBase"
+        if case.get("sibling_mode"):
+            # another mode of the same robot derives from the same base and has its OWN versions of the remaining
+            # states (same names): what a state of the base hands over to is a matter of the instance's class
+            out += ["class Sibling(ModeBase):", f"    MODE_NAME = {'Sibling of ' + case['mode_name']!r}"]
+            for sd in case["states"][split:]:
+                out.extend(_state_lines(dict(sd, dur=sd.get("dur", 0) + 32), tag="SIBLING:"))
+            out.append("    def _hit(self, name, args):")
+            out.append("        self._trace.append((name, args))")
     out += [f"class Mode({parent}):", f"    MODE_NAME = {case['mode_name']!r}", "    def initialize(self):"]
     body = [f"        self.register_sd_var({v['n']!r}, {v['default']!r}, add_prefix={v['prefix']})" for v in case.get("vars", [])]
     out.extend(body or ["        pass"])
@@ -164,6 +172,8 @@ def decode(code):
         if bv["timed"]:
             bv["dur"], bv["next"], bv["intdur"] = 32, None, False
         case["base_version"] = bv
+        if first_i % 2 == 0:
+            case["sibling_mode"] = True
     if name_c == 2:
         case["other_mode"] = True
     if first_i % 3 == 1:
@@ -244,6 +254,9 @@ class C15(Lab):
         ns = {"StatefulAutonomous": sa.StatefulAutonomous, "state": sa.state, "timed_state": sa.timed_state}
         try:
             exec(compile(class_source(case), "<generated mode>", "exec"), ns)
+            if case.get("sibling_mode") and case.get("split"):
+                sib = ns["Sibling"]()  # constructed first, as the selector would when its module sorts first
+                sib._trace = []
             mode = ns["Mode"](components={case["shadow_comp"]: object()}) if case.get("shadow_comp") else ns["Mode"]()
         except Exception as e:
             raise exc_violation("C15", e, f"defining/instantiating the mode; case: {case}")
